@@ -59,8 +59,8 @@ GENS = {
     "sunflower": _p(l=st.integers(0, 4), c=st.integers(0, 3), extra=st.integers(1, 3)),
     "trivial_hypergraph": _p(n=st.integers(0, 6)),
     "random_simplicial_complex": _p(N=st.integers(0, 7), ps=st.lists(st.sampled_from([0, 0.3, 0.7, 1]), min_size=1, max_size=3)),
-    "flag_complex": _p(gn=st.integers(1, 7), gp=st.sampled_from([0, 0.3, 0.6, 1]), max_order=st.integers(1, 3), ps=st.one_of(st.none(), st.lists(st.sampled_from([0, 0.5, 1]), min_size=3, max_size=3))),
-    "flag_complex_d2": _p(gn=st.integers(1, 7), gp=st.sampled_from([0, 0.3, 0.6, 1]), p2=st.sampled_from([None, 0, 0.5, 1])),
+    "flag_complex": _p(gn=st.integers(1, 7), gp=st.sampled_from([0, 0.3, 0.6, 1]), gedges=st.one_of(st.none(), st.lists(st.tuples(st.integers(0, 6), st.integers(0, 6)).map(list), max_size=14)), max_order=st.integers(1, 3), ps=st.one_of(st.none(), st.lists(st.sampled_from([0, 0.5, 1]), min_size=3, max_size=3))),
+    "flag_complex_d2": _p(gn=st.integers(1, 7), gp=st.sampled_from([0, 0.3, 0.6, 1]), gedges=st.one_of(st.none(), st.lists(st.tuples(st.integers(0, 6), st.integers(0, 6)).map(list), max_size=14)), p2=st.sampled_from([None, 0, 0.5, 1])),
     "random_flag_complex": _p(N=st.integers(1, 7), p=st.sampled_from([0, 0.5, 1]), max_order=st.integers(1, 3)),
     "random_flag_complex_d2": _p(N=st.integers(1, 7), p=st.sampled_from([0, 0.5, 1])),
 }
@@ -256,7 +256,12 @@ def run_case(case, ctx):
         closed(C, H)
         boundary = any(x in (0, 1) for x in p["ps"])
     elif g in ("flag_complex", "flag_complex_d2"):
-        G = nx.gnp_random_graph(p["gn"], p["gp"], seed=seed)
+        if p.get("gedges") is None:
+            G = nx.gnp_random_graph(p["gn"], p["gp"], seed=seed)
+        else:  # edges in the drawn order: node order and adjacency order are then arbitrary
+            G = nx.Graph()
+            G.add_nodes_from(range(p["gn"] - 1, -1, -1) if seed % 2 else range(p["gn"]))
+            G.add_edges_from((a % p["gn"], b % p["gn"]) for a, b in p["gedges"] if a % p["gn"] != b % p["gn"])
         if g == "flag_complex":
             mo = p["max_order"]
             ps = p["ps"][: mo - 1] if p["ps"] is not None and mo > 1 else None
